@@ -986,6 +986,7 @@ uint64_t RunSPlan(const SPlan &plan_in, const std::string &repo,
     int st2 = 0;
     waitpid(pid2, &st2, 0);
     Hasher h;
+    bool undecided = false;
     if (solo_done && 10.0 * ts + 10.0 <= kStageLimit) {
       SFinding f;
       f.cls = "hang";
@@ -1000,22 +1001,21 @@ uint64_t RunSPlan(const SPlan &plan_in, const std::string &repo,
       if (effective) *effective = p;
       h.Str(f.sig);
     } else {
-      h.U64(0x0badc10c);
+      undecided = true;
     }
     if (ep_out) {
       *ep_out = Episode();
       ep_out->wallclock = true;
     }
-    return h.Digest();
+    // 0 = "undecided: wall clock" (left out of the determinism audit).
+    return undecided ? 0 : h.Digest();
   }
   if (solo_hung) {
-    Hasher h;
-    h.U64(0x0badc10c);
     if (ep_out) {
       *ep_out = Episode();
       ep_out->wallclock = true;
     }
-    return h.Digest();
+    return 0;
   }
   Json j;
   if (text.empty() || !Json::Parse(text, &j)) {
@@ -1065,6 +1065,7 @@ uint64_t RunSPlan(const SPlan &plan_in, const std::string &repo,
   // parameterised by the first input) is the same in both and cancels out.
   // Here each task runs where nothing ran before it.
   uint64_t cold_mix = 0;
+  bool cold_undecided = false;
   if (j.has("res")) {
     const Json &res = j.get("res");
     for (size_t t = 0; t < p.tasks.size() && t < res.size(); ++t) {
@@ -1119,6 +1120,7 @@ uint64_t RunSPlan(const SPlan &plan_in, const std::string &repo,
       close(fd3[0]);
       int st3 = 0;
       waitpid(pid3, &st3, 0);
+      if (timed_out) cold_undecided = true;
       if (timed_out || ctext.size() < 5 ||
           ctext.compare(ctext.size() - 5, 5, "done\n") != 0)
         continue;  // no reference: no verdict for this task
@@ -1157,6 +1159,7 @@ uint64_t RunSPlan(const SPlan &plan_in, const std::string &repo,
     effective->strategy = "replay";
     effective->schedule = ep.trace;
   }
+  if (cold_undecided) return 0;  // wall clock: left out of the determinism audit
   return mix64(strtoull(j.get("hash").Str().c_str(), nullptr, 16), cold_mix);
 }
 
